@@ -47,3 +47,30 @@ Proof.
   generalize dependent (f :: u). induction l as [|g r IH]; intros H; [reflexivity|].
   simpl in *. apply andb_prop in H. destruct H as [Hf Hr]. unfold nextline_frame at 1. rewrite Hf. simpl. auto.
 Qed.
+
+(** an exception raised at run time from the user's code -- WHATEVER its class, SyntaxError and KeyboardInterrupt included:
+    the raw traceback is the runner frame followed by user frames only (no compose.py frame: nothing was compiled by
+    nextline; no WithContext frame: not raised inside a trace call), and the cleaned traceback is exactly the user frames *)
+Lemma clean_syntax_loop_user : forall t orig here, forallb user_frame t = true -> here = false ->
+  clean_syntax_loop here t orig = orig.
+Proof.
+  induction t as [|f r IH]; intros orig here H E; subst here; simpl; [reflexivity|].
+  simpl in H. apply andb_prop in H. destruct H as [Hf Hr].
+  assert (C : is_compose f = false) by (destruct f; simpl in *; try reflexivity; discriminate).
+  rewrite C. destruct r; [reflexivity|]. apply IH; auto.
+Qed.
+
+Lemma cut_wc_user_only : forall u, forallb user_frame u = true -> cut_wc u = u.
+Proof.
+  induction u as [|f r IH]; intros H; simpl; [reflexivity|].
+  simpl in H. apply andb_prop in H. destruct H as [Hf Hr]. destruct f; simpl in *; try discriminate; rewrite IH; auto.
+Qed.
+
+Lemma clean_runtime_any_class : forall k u, forallb user_frame u = true -> clean k (raw_ordinary u) = u.
+Proof.
+  intros k u H. unfold clean, raw_ordinary. simpl remove_frame.
+  assert (S : clean_syntax k u = u).
+  { unfold clean_syntax. destruct k; try reflexivity. apply clean_syntax_loop_user; auto. }
+  rewrite S. unfold clean_kbd. destruct k; try reflexivity. destruct u as [|f r]; [reflexivity|].
+  simpl in H. apply andb_prop in H. destruct H as [_ Hr]. rewrite cut_wc_user_only; auto.
+Qed.
